@@ -15,6 +15,7 @@
 EXTENDS World, TLC, Json
 
 CONSTANTS MaxSteps, EmitFrom,  \* histories of length EmitFrom..MaxSteps are emitted
+          Phase,
           MaxGuards           \* guard ids are 1..MaxGuards (the actions themselves are unbounded)
 
 \* ---- bounded next-state relation (model checking) -----------------------------
@@ -23,34 +24,46 @@ FreeIds == (1 .. MaxGuards) \ DOMAIN guards
 FreeSeq == Sorted(FreeIds)
 Live == DOMAIN guards
 
-Next ==
+\* &mut self calls (enabled only without live guards, D1)
+NextMut ==
+  \/ \E t \in Types, p \in Payloads : Insert(t, p) \/ EntryOrInsert(t, p) \/ EntryOrInsertWith(t, p)
+  \/ \E t \in Types, id \in Ids, p \in Payloads : InsertById(t, id, p)
+  \/ \E t \in Types : Remove(t)
+  \/ \E t \in Types, id \in Ids : RemoveById(t, id)
+  \/ \E t \in Types, p \in WPayloads \cup {0} : GetMut(t, p)
+  \/ \E id \in Ids, p \in WPayloads \cup {0} : GetMutRaw(id, p)
+  \/ \E sh \in SetupShapes : Setup(sh)
+  \/ \E sh \in SetupShapes, p \in WPayloads \cup {0}, fp \in BOOLEAN : Exec(sh, p, fp)
+
+\* &self calls and operations on guards
+NextShared ==
   LET fs == FreeSeq IN
-  /\ \/ \E t \in Types, p \in Payloads : Insert(t, p) \/ EntryOrInsert(t, p) \/ EntryOrInsertWith(t, p)
-     \/ \E t \in Types, id \in Ids, p \in Payloads : InsertById(t, id, p)
-     \/ \E t \in Types : Remove(t) \/ HasValue(t)
-     \/ \E t \in Types, id \in Ids : RemoveById(t, id)
+  /\ \/ \E t \in Types : HasValue(t)
      \/ \E id \in Ids : HasValueRaw(id)
-     \/ \E t \in Types, p \in WPayloads \cup {0} : GetMut(t, p)
-     \/ \E id \in Ids, p \in WPayloads \cup {0} : GetMutRaw(id, p)
      \/ \E t \in Types : Fetch(t, fs) \/ TryFetch(t, fs) \/ FetchMut(t, fs) \/ TryFetchMut(t, fs)
      \/ \E t \in Types, id \in Ids : TryFetchById(t, id, fs) \/ TryFetchMutById(t, id, fs)
      \/ \E g \in Live : CloneGuard(g, fs) \/ DropGuard(g)
      \/ \E g \in Live, p \in WPayloads : GuardWrite(g, p)
      \/ \E S \in SUBSET Live : S # {} /\ Unwind(Sorted(S))
      \/ \E sh \in Shapes : SystemData(sh, fs)
-     \/ \E sh \in SetupShapes : Setup(sh)
-     \/ \E sh \in SetupShapes, p \in WPayloads \cup {0}, fp \in BOOLEAN : Exec(sh, p, fp)
      \/ \E mode \in {"r", "w"} : MetaTys # <<>> /\ MetaIter(MetaTys, mode, fs)
   /\ 0 \notin DOMAIN guards'           \* D4: enough free guard ids (model bound only)
 
+Next == NextMut \/ NextShared
+
+\* well-typed inserts only (used to populate the world quickly, see Phase)
+NextBuild == \E id \in Ids, p \in Payloads : InsertById(id[1], id, p)
 
 VARIABLE hist
 mcvars == <<store, borrow, guards, dropped, returned, nextIdent, call, outcome, hist>>
 
 MCInit == Init /\ hist = <<>>
+\* Phase = 0: every call at every step.  Phase = k > 0: the first k calls populate the
+\* world (NextBuild), the remaining ones are &self calls and guard operations only, so
+\* that guard-heavy histories are reached within a small bound.
 MCNext ==
   /\ Len(hist) < MaxSteps
-  /\ Next
+  /\ IF Phase = 0 THEN Next ELSE IF Len(hist) < Phase THEN NextBuild ELSE NextShared
   /\ hist' = Append(hist, [call |-> call', out |-> outcome', st |-> store', br |-> borrow', gd |-> guards',
                               n |-> nextIdent', D |-> dropped' \cup returned'])
 MCSpec == MCInit /\ [][MCNext]_mcvars
